@@ -3,6 +3,7 @@ package run
 import (
 	"fmt"
 	"reflect"
+	"sort"
 	"strings"
 
 	"github.com/ostafen/clover/v2/query"
@@ -17,7 +18,7 @@ func (digestVisitor) VisitUnaryCriteria(c *query.UnaryCriteria) interface{} {
 	} else if query.IsField(c.Value) {
 		v = fmt.Sprintf("field%+v", reflect.ValueOf(c.Value).Elem())
 	} else {
-		v = fmt.Sprintf("%T:%#v", c.Value, c.Value)
+		v = typedShow(c.Value)
 	}
 	return fmt.Sprintf("U(%d,%q,%s)", c.OpType, c.Field, v)
 }
@@ -43,4 +44,29 @@ func QueryDigest(q *query.Query) string {
 	var sb strings.Builder
 	fmt.Fprintf(&sb, "coll=%q skip=%d limit=%d sort=%v crit=%s critptr=%p", q.Collection(), q.GetSkip(), q.GetLimit(), q.SortOptions(), CritDigest(q.Criteria()), q.Criteria())
 	return sb.String()
+}
+
+// typedShow renders a literal with the Go type of every member (a literal normalised in
+// place keeps its %v text: int32(1) and int64(1) both print as 1).
+func typedShow(v interface{}) string {
+	switch x := v.(type) {
+	case []interface{}:
+		parts := make([]string, len(x))
+		for i, e := range x {
+			parts[i] = typedShow(e)
+		}
+		return fmt.Sprintf("[]@%p{%s}", x, strings.Join(parts, ","))
+	case map[string]interface{}:
+		keys := make([]string, 0, len(x))
+		for k := range x {
+			keys = append(keys, k)
+		}
+		sort.Strings(keys)
+		parts := make([]string, len(keys))
+		for i, k := range keys {
+			parts[i] = fmt.Sprintf("%q:%s", k, typedShow(x[k]))
+		}
+		return fmt.Sprintf("map@%p{%s}", x, strings.Join(parts, ","))
+	}
+	return fmt.Sprintf("%T:%#v", v, v)
 }
